@@ -1,13 +1,60 @@
-"""C14 -- what is written to disk reads back unchanged and never overwrites earlier output."""
+"""C14 -- what is written to disk reads back unchanged and never overwrites earlier output.
+
+Tie A (regenerated on every run): Gen/Files.v (get_new_file_name), Gen/Backup.v (create_backup),
+Gen/Params.v (parse_boolean, boolean coding of generate_document, value branch of import_document),
+Gen/Reports.v (row loops of the report writers), Gen/Results.v (attributes read / assigned by
+_calculate_stats, write_pickle), plus a static scan that every writer of results.py / biogeme.py /
+database.py obtains its file name from get_new_file_name.
+Tie B / property oracles: streams names, backup, boolean, history, toml, reports, pickle."""
+import ast
+import json
+import math
+import re
+import struct
+from fractions import Fraction
+
 import py2v
 from py2v import Untranslatable, simple
-from common import coq_string, coq_list, parse_bools, parse_marked
+from common import coq_string, coq_list, coq_bool, parse_bools, parse_marked, REPO, VERIF
 
 ASSUME = [
-    'a directory is modelled as the list of names of its regular files; Path(x).is_file() is membership',
+    'a directory is modelled as the list of names of its regular files; Path(x).is_file() / os.path.exists(x) is membership',
     'open(name, "w") on a name returned by get_new_file_name creates exactly that file (no TOCTOU: '
     'concurrent creation between is_file() and open() is a runtime fact outside the model -- partial)',
+    'os.rename(a, b) / shutil.copy(a, b) with b absent move / copy the content of a to b and touch nothing else',
+    'tomlkit: parse(dumps(doc)) visits the same (section, entry, value) triples, integers / floats (bit-for-bit) / strings '
+    'unchanged (Section hypotheses tk_entries, tk_nodup of T14d); checked on every case of stream toml',
+    'pickle: load(dump(x)) has the same attributes with the same values (Section hypothesis loads_dumps of T14e); '
+    'checked on every case of stream pickle',
+    'pandas: DataFrame.loc[label] = row appends / replaces one row; Styler.to_latex renders one line per row; '
+    'Python format() of a float with the specifications found in the source prints the value to that precision',
+    'parameter values are Python bool / int / float / str (default_parameters.ParameterValue) of the declared type '
+    '(well_typed); parameter names and file names are ASCII',
+    'Parameters.dump_file(name) and the default biogeme.toml are configuration files, sample_and_merge writes to a '
+    'name chosen by the caller, __<model>.iter is the restart file of C15: none is a "result, report or data-dump file"',
 ]
+
+
+def U(n):
+    return ast.unparse(n)
+
+
+def UN(n):
+    return ast.unparse(n).replace(' ', '').replace('\n', '').replace('(', '').replace(')', '')
+
+
+def need(cond, msg):
+    if not cond:
+        raise Untranslatable(msg)
+
+
+def _dotted(n):
+    if isinstance(n, ast.Name):
+        return n.id
+    if isinstance(n, ast.Attribute):
+        b = _dotted(n.value)
+        return None if b is None else b + '.' + n.attr
+    return None
 
 
 def gen_files(ctx):
@@ -24,6 +71,491 @@ def gen_files(ctx):
         'Section WithFS.\nVariable fs : list string.\n' + d1 + 'End WithFS.\n'
     )
     ctx.gen('Files', text)
+
+
+
+def gen_backup_text():
+    ext = {
+        'os.path.splitext': simple('splitext', ['string'], '(string * string)'),
+        'os.path.exists': simple('path_exists fs', ['string'], 'bool'),
+        'fs_rename': simple('FsRename', ['string','string'], 'fs_effect'),
+        'fs_copy': simple('FsCopy', ['string','string'], 'fs_effect'),
+    }
+    tr = py2v.load('src/biogeme/tools/files.py', externals=ext, formats={('Z',''): 'string_of_Z'})
+    fd = tr.find('create_backup')
+    # --- fail-closed rewriting of the two side effects into a returned effect value
+    EFFECTS = {'os.rename': 'fs_rename', 'shutil.copy': 'fs_copy'}
+    n_eff = [0]
+    class RW(ast.NodeTransformer):
+        def visit_Expr(self, node):
+            if isinstance(node.value, ast.Call):
+                d = _dotted(node.value.func)
+                if d in EFFECTS:
+                    if len(node.value.args) != 2 or node.value.keywords:
+                        raise Untranslatable(f'create_backup: unexpected arguments of {d}')
+                    n_eff[0] += 1
+                    new = ast.Assign(targets=[ast.Name(id='effect', ctx=ast.Store())],
+                                     value=ast.Call(func=ast.Name(id=EFFECTS[d], ctx=ast.Load()), args=node.value.args, keywords=[]))
+                    return ast.copy_location(new, node)
+            return node
+    fd2 = RW().visit(fd)
+    if n_eff[0] != 2:
+        raise Untranslatable(f'create_backup: expected exactly one os.rename and one shutil.copy, found {n_eff[0]} effects')
+    # returns: `return new_name` -> `return (effect, new_name)`; falling off the end -> `return None`
+    nret = 0
+    for n in ast.walk(fd2):
+        if isinstance(n, ast.Return):
+            nret += 1
+            if not (isinstance(n.value, ast.Name)):
+                raise Untranslatable('create_backup: unexpected return value')
+            n.value = ast.Tuple(elts=[ast.Name(id='effect', ctx=ast.Load()), n.value], ctx=ast.Load())
+    if nret != 1:
+        raise Untranslatable(f'create_backup: expected one return, found {nret}')
+    if isinstance(fd2.body[-1], (ast.Return, ast.Raise)):
+        raise Untranslatable('create_backup: expected the function to fall off its end when the file does not exist')
+    fd2.body.append(ast.Return(value=ast.Constant(value=None)))
+    # `while True:` whose first statement assigns the loop-carried name: give it a (dead) initial value
+    for parent in ast.walk(fd2):
+        body = getattr(parent, 'body', None)
+        if not isinstance(body, list): continue
+        for i, s in enumerate(list(body)):
+            if isinstance(s, ast.While):
+                first = s.body[0]
+                if not (isinstance(s.test, ast.Constant) and s.test.value is True and isinstance(first, ast.Assign)
+                        and len(first.targets) == 1 and isinstance(first.targets[0], ast.Name)):
+                    raise Untranslatable('create_backup: loop shape changed')
+                v = first.targets[0].id
+                # the initial value is dead only if the first statement does not read the variable
+                if any(isinstance(x, ast.Name) and x.id == v for x in ast.walk(first.value)):
+                    raise Untranslatable('create_backup: loop variable read before assignment')
+                body.insert(i, ast.Assign(targets=[ast.Name(id=v, ctx=ast.Store())], value=ast.Constant(value='')))
+                break
+    ast.fix_missing_locations(fd2)
+    d = tr.function('create_backup', {'filename': 'string', 'rename': 'bool'}, 'option (fs_effect * string)', partial=True)
+    return d
+
+
+def gen_backup(ctx):
+    """tie A: tools.files.create_backup"""
+    txt = gen_backup_text().replace(': option option (fs_effect * string) :=', ': option (option (fs_effect * string)) :=')
+    ctx.gen('Backup', 'From BV Require Import Model.PyBase Model.FsOps.\nOpen Scope Z_scope.\n'
+            'Section WithFS.\nVariable fs : list string.\n' + txt + 'End WithFS.\n')
+
+
+def gen_params_text():
+    tr = py2v.load('src/biogeme/parameters.py')
+    consts = {}
+    for n in tr.tree.body:
+        if isinstance(n, ast.Assign) and len(n.targets) == 1 and isinstance(n.targets[0], ast.Name) \
+                and n.targets[0].id in ('TRUE_STR', 'FALSE_STR'):
+            need(isinstance(n.value, ast.Tuple) and all(isinstance(e, ast.Constant) and isinstance(e.value, str) for e in n.value.elts),
+                 f'parameters.py: {n.targets[0].id} is not a tuple of string literals')
+            consts[n.targets[0].id] = [e.value for e in n.value.elts]
+    need(set(consts) == {'TRUE_STR', 'FALSE_STR'}, 'parameters.py: TRUE_STR / FALSE_STR not found')
+    out = []
+    for k in ('TRUE_STR', 'FALSE_STR'):
+        out.append(f'Definition {k} : list string := {coq_list([coq_string(s) + "%string" for s in consts[k]])}.\n')
+        tr.attrs[k] = (k, 'list string')
+    tr.externals['in:list string'] = simple('str_in', ['string', 'list string'], 'bool')
+    out.append(tr.function('parse_boolean', {'value': 'string'}, 'bool', partial=True))
+    # ---- generate_document: the boolean coding
+    gd = tr.find('Parameters.generate_document')
+    loops = [s for s in gd.body if isinstance(s, ast.For)]
+    need(len(loops) == 2, 'generate_document: expected two for loops')
+    lp = loops[0]
+    need(U(lp.target) == 'parameter' and U(lp.iter) == 'self.all_parameters_dict.values()',
+         'generate_document: the first loop is not over all the parameters')
+    need(not any(isinstance(x, (ast.Break, ast.Continue, ast.Return)) for x in ast.walk(lp)), 'generate_document: exit inside the loop')
+    st = lp.body
+    need(len(st) >= 2 and isinstance(st[0], ast.If) and U(st[0].test) == 'isinstance(parameter.value, bool)',
+         'generate_document: boolean test changed')
+    b, o = st[0].body, st[0].orelse
+    need(len(b) == 1 and isinstance(b[0], ast.Assign) and U(b[0].targets[0]) == 'value' and isinstance(b[0].value, ast.IfExp)
+         and U(b[0].value.test) == 'parameter.value'
+         and isinstance(b[0].value.body, ast.Constant) and isinstance(b[0].value.body.value, str)
+         and isinstance(b[0].value.orelse, ast.Constant) and isinstance(b[0].value.orelse.value, str),
+         'generate_document: boolean coding changed')
+    need(len(o) == 1 and U(o[0]) == 'value = parameter.value', 'generate_document: non-boolean branch changed')
+    need(U(st[1]) == 'tables[parameter.section].add(parameter.name, value)', 'generate_document: the entry is not added as (name, value)')
+    for s in st[2:]:   # the rest may only attach the comment
+        need(not any(isinstance(x, ast.Name) and x.id == 'value' and isinstance(x.ctx, ast.Store) for x in ast.walk(s))
+             and '.add(' not in U(s) and 'remove' not in U(s) and 'del ' not in U(s), 'generate_document: unexpected statement after add')
+    need(U(loops[1]).replace('\n', ' ').split() == 'for s, t in tables.items(): doc[s] = t'.split(), 'generate_document: tables are not all stored in the document')
+    t_s, f_s = b[0].value.body.value, b[0].value.orelse.value
+    out.append('(* from src/biogeme/parameters.py:%d Parameters.generate_document (value coding) *)\n' % st[0].lineno +
+               'Definition encode_value (v : pvalue) : tvalue :=\n  match v with\n'
+               f'  | PBool b => tv_of_pvalue (PStr (if b then {coq_string(t_s)} else {coq_string(f_s)}))\n'
+               '  | _ => tv_of_pvalue v\n  end.\n')
+    # ---- import_document: the value branch
+    im = tr.find('Parameters.import_document')
+    body = [s for s in im.body if not tr.ignorable(s)]
+    need(len(body) == 1 and isinstance(body[0], ast.For) and U(body[0].target).strip('()') == 'section_name, entries'
+         and U(body[0].iter) == 'self.document.items()', 'import_document: outer loop changed')
+    inner = body[0].body
+    need(len(inner) == 1 and isinstance(inner[0], ast.For) and U(inner[0].target).strip('()') == 'entry_name, entry_value'
+         and U(inner[0].iter) == 'entries.items()', 'import_document: inner loop changed')
+    ib = inner[0].body
+    need(len(ib) == 6, f'import_document: loop body has {len(ib)} statements, expected 6')
+    need(U(ib[0]) == 'key = NameSectionTuple(name=entry_name, section=section_name)', 'import_document: key changed')
+    need(U(ib[1]) == 'default = self.all_parameters_dict.get(key)', 'import_document: default lookup changed')
+    need(isinstance(ib[2], ast.If) and U(ib[2].test) == 'default is None' and isinstance(ib[2].body[-1], ast.Continue)
+         and not ib[2].orelse and all(tr.ignorable(s) or isinstance(s, (ast.Assign, ast.Continue)) for s in ib[2].body),
+         'import_document: unknown-entry branch changed')
+    c = ib[3]
+    need(isinstance(c, ast.If) and U(c.test) == 'entry_value is None' and [U(s) for s in c.body] == ['value = default.value']
+         and len(c.orelse) == 1 and isinstance(c.orelse[0], ast.If), 'import_document: None branch changed')
+    c2 = c.orelse[0]
+    need(U(c2.test) == 'default.type is bool' and [U(s) for s in c2.orelse] == ['value = entry_value'], 'import_document: type test changed')
+    need(len(c2.body) == 1 and isinstance(c2.body[0], ast.Try), 'import_document: boolean branch changed')
+    t = c2.body[0]
+    need([U(s) for s in t.body] == ['value = parse_boolean(entry_value)'] and len(t.handlers) == 1
+         and U(t.handlers[0].type) == 'excep.BiogemeError' and isinstance(t.handlers[0].body[-1], ast.Raise)
+         and U(t.handlers[0].body[-1].exc).startswith('excep.BiogemeError(') and not t.orelse and not t.finalbody,
+         'import_document: parse_boolean call / error handling changed')
+    need(U(ib[4]).replace('\n', '').replace(' ', '') ==
+         'the_parameter=ParameterTuple(name=entry_name,value=value,type=default.type,section=section_name,'
+         'description=default.description,check=default.check)', 'import_document: rebuilt tuple changed')
+    need(U(ib[5]) == 'self.add_parameter(the_parameter)', 'import_document: add_parameter call changed')
+    out.append('(* from src/biogeme/parameters.py:%d Parameters.import_document (value branch) *)\n' % c.lineno +
+               'Definition decode_value (default_type : ptype) (default_value : pvalue) (entry_value : option tvalue) : option pvalue :=\n'
+               '  match entry_value with\n  | None => Some default_value\n'
+               '  | Some ev => if ptype_is_bool default_type then option_map PBool (on_str parse_boolean ev)\n'
+               '               else Some (pv_of_tvalue ev)\n  end.\n')
+    # add_parameter: checks first, then store under the key
+    ap = tr.find('Parameters.add_parameter')
+    ab = [U(s).replace('\n', '').replace(' ', '') for s in ap.body if not tr.ignorable(s)]
+    need(ab == ['key=NameSectionTuple(name=parameter_tuple.name,section=parameter_tuple.section)',
+                'ok,messages=self.check_parameter_value(parameter_tuple)',
+                'ifnotok:raiseexcep.BiogemeError(messages)',
+                'already_there=self.all_parameters_dict.get(key)',
+                'self.all_parameters_dict[key]=parameter_tuple'], 'add_parameter: shape changed: ' + repr(ab))
+    return ('From BV Require Import Model.PyBase Model.Params.\nOpen Scope Z_scope.\nOpen Scope string_scope.\n' + ''.join(out))
+
+def gen_params(ctx):
+    """tie A: parameters.parse_boolean + boolean coding + import branch"""
+    ctx.gen('Params', gen_params_text())
+
+
+FIELDS = {'b.value': 'FValue', '{True: 1.0, False: 0.0}[b.is_bound_active()]': 'FActive',
+          'b.stdErr': 'FStdErr', 'b.tTest': 'FTTest', 'b.pValue': 'FPValue',
+          'b.robust_stdErr': 'FRobStdErr', 'b.robust_tTest': 'FRobTTest', 'b.robust_pValue': 'FRobPValue',
+          'b.bootstrap_stdErr': 'FBootStdErr', 'b.bootstrap_tTest': 'FBootTTest', 'b.bootstrap_pValue': 'FBootPValue'}
+
+def _colname(k):
+    if isinstance(k, ast.Constant) and isinstance(k.value, str):
+        return coq_string(k.value)
+    if isinstance(k, ast.JoinedStr):
+        parts = []
+        for v in k.values:
+            if isinstance(v, ast.Constant):
+                parts.append(coq_string(v.value))
+            elif isinstance(v, ast.FormattedValue) and U(v.value) == 'len(self.data.bootstrap)' and v.format_spec is None and v.conversion == -1:
+                parts.append('nboot')
+            else:
+                raise Untranslatable('get_estimated_parameters: unexpected column name ' + U(k))
+        return '(' + ' ++ '.join(parts) + ')%string'
+    raise Untranslatable('get_estimated_parameters: unexpected column name ' + U(k))
+
+def _field(v):
+    u = U(v)
+    need(u in FIELDS, 'get_estimated_parameters: unexpected cell ' + u)
+    return FIELDS[u]
+
+def _arow(stmts, what):
+    """an if-tree whose leaves are `arow = {...}` -> Gallina expression of type list (string * field)"""
+    need(len(stmts) == 1, f'{what}: unexpected statements')
+    s = stmts[0]
+    if isinstance(s, ast.If):
+        need(U(s.test) in ('any_active_bound', 'only_robust'), f'{what}: unexpected test {U(s.test)}')
+        return f'(if {U(s.test)} then {_arow(s.body, what)} else {_arow(s.orelse, what)})'
+    need(isinstance(s, ast.Assign) and U(s.targets[0]) == 'arow' and isinstance(s.value, ast.Dict), f'{what}: unexpected statement {U(s)[:60]}')
+    return coq_list([f'({_colname(k)}, {_field(v)})' for k, v in zip(s.value.keys, s.value.values)])
+
+def _spec(fv):
+    if fv.format_spec is None:
+        return ''
+    need(all(isinstance(x, ast.Constant) for x in fv.format_spec.values), 'dynamic format specification')
+    return ''.join(x.value for x in fv.format_spec.values)
+
+def _single_fv(js, what):
+    need(isinstance(js, ast.JoinedStr), f'{what}: not an f-string')
+    fvs = [v for v in js.values if isinstance(v, ast.FormattedValue)]
+    need(len(fvs) == 1 and fvs[0].conversion == -1, f'{what}: expected one formatted value')
+    return fvs[0]
+
+def no_exit(loop, what):
+    need(not any(isinstance(x, (ast.Break, ast.Continue, ast.Return, ast.Raise)) for x in ast.walk(loop)) and not loop.orelse,
+         f'{what}: exit inside the row loop')
+
+def gen_reports_text():
+    tr = py2v.load('src/biogeme/results.py')
+    out = ['From BV Require Import Model.PyBase Model.FsOps Model.Reports.\nOpen Scope string_scope.\n']
+    # ------------------------------------------------ get_estimated_parameters
+    fd = tr.find('bioResults.get_estimated_parameters')
+    loops = [s for s in fd.body if isinstance(s, ast.For)]
+    need(len(loops) == 2 and all(U(l.target) == 'b' and U(l.iter) == 'self.data.betas' for l in loops),
+         'get_estimated_parameters: expected two loops over self.data.betas')
+    need(isinstance(fd.body[-1], ast.Return) and U(fd.body[-1].value) == 'table' and fd.body[-2] is loops[1],
+         'get_estimated_parameters: the table is not returned right after the row loop')
+    tb = [s for s in fd.body if isinstance(s, ast.Assign) and U(s.targets[0]) == 'table']
+    need(len(tb) == 1 and U(tb[0].value) == 'pd.DataFrame(columns=columns)', 'get_estimated_parameters: table creation changed')
+    lp = loops[1]
+    no_exit(lp, 'get_estimated_parameters')
+    need(len(lp.body) == 3, 'get_estimated_parameters: row loop body changed')
+    base = _arow(lp.body[:1], 'get_estimated_parameters')
+    bs = lp.body[1]
+    need(isinstance(bs, ast.If) and UN(bs.test) == 'self.data.bootstrapisnotNoneandnotonly_robust' and not bs.orelse,
+         'get_estimated_parameters: bootstrap test changed')
+    extra = []
+    for s in bs.body:
+        need(isinstance(s, ast.Assign) and isinstance(s.targets[0], ast.Subscript) and U(s.targets[0].value) == 'arow',
+             'get_estimated_parameters: unexpected statement in the bootstrap branch')
+        extra.append(f'({_colname(s.targets[0].slice)}, {_field(s.value)})')
+    need(U(lp.body[2]) == 'table.loc[b.name] = pd.Series(arow)', 'get_estimated_parameters: the row is not stored under b.name')
+    out.append(f'(* from src/biogeme/results.py:{lp.lineno} bioResults.get_estimated_parameters (row loop) *)\n'
+               'Definition gep_columns (any_active_bound only_robust with_bootstrap : bool) (nboot : string) : list (string * field) :=\n'
+               f'  ({base}\n   ++ (if with_bootstrap && negb only_robust then {coq_list(extra)} else []))%list.\n'
+               'Definition gep_table {B} (b_name : B -> string) (any_active_bound only_robust with_bootstrap : bool) (nboot : string)\n'
+               '    (data_betas : list B) : table (row B) :=\n'
+               '  estimated_parameters_table b_name (gep_columns any_active_bound only_robust with_bootstrap nboot) data_betas.\n')
+    # ------------------------------------------------ get_html
+    fd = tr.find('bioResults.get_html')
+    idx = [i for i, s in enumerate(fd.body) if isinstance(s, ast.Assign) and U(s.targets[0]) == 'table']
+    need(len(idx) == 2 and U(fd.body[idx[0]].value) == 'self.get_estimated_parameters(only_robust)', 'get_html: source of the parameter table changed')
+    seg = fd.body[idx[0] + 1: idx[1]]
+    loops = [s for s in seg if isinstance(s, ast.For) and U(s.iter) == 'table.iterrows()']
+    need(len(loops) == 1 and UN(loops[0].target) == 'name,values', 'get_html: parameter row loop changed')
+    lp = loops[0]
+    no_exit(lp, 'get_html')
+    need(len(lp.body) == 3 and all(isinstance(s, ast.AugAssign) and U(s.target) == 'html' and isinstance(s.op, ast.Add) for s in (lp.body[0], lp.body[2]))
+         and isinstance(lp.body[1], ast.For), 'get_html: parameter row body changed')
+    fv = _single_fv(lp.body[0].value, 'get_html name cell')
+    need(U(fv.value) == 'name' and _spec(fv) == '', 'get_html: the name cell does not show the name')
+    inner = lp.body[1]
+    need(UN(inner.target) == 'key,value' and U(inner.iter) == 'values.items()' and len(inner.body) == 1
+         and isinstance(inner.body[0], ast.AugAssign) and U(inner.body[0].target) == 'html', 'get_html: cell loop changed')
+    no_exit(inner, 'get_html')
+    fv = _single_fv(inner.body[0].value, 'get_html value cell')
+    need(U(fv.value) == 'value', 'get_html: the value cell does not show the value')
+    html_spec = _spec(fv)
+    out.append(f'(* from src/biogeme/results.py:{lp.lineno} bioResults.get_html (parameter rows) *)\n'
+               'Definition html_rows {C} (t : table (list (string * C))) : list (string * list (string * C)) :=\n'
+               f"  map (fun '(name, values) => (name, map (fun '(key, value) => ({coq_string(html_spec)}, value)) values)) t.\n")
+    # ------------------------------------------------ get_latex
+    fd = tr.find('bioResults.get_latex')
+    idx = [i for i, s in enumerate(fd.body) if isinstance(s, ast.Assign) and U(s.targets[0]) == 'table']
+    need(len(idx) == 2 and U(fd.body[idx[0]].value) == 'self.get_estimated_parameters(only_robust)', 'get_latex: source of the parameter table changed')
+    seg = fd.body[idx[0] + 1: idx[1]]
+    trys = [s for s in seg if isinstance(s, ast.Try)]
+    need(len(trys) == 1 and [U(s) for s in trys[0].body] == ['latex += table.style.format(formatting).to_latex()']
+         and len(trys[0].handlers) == 1 and [U(s) for s in trys[0].handlers[0].body] == ['latex += table.to_latex(float_format=formatting)'],
+         'get_latex: rendering of the parameter table changed')
+    fm = [s for s in seg if isinstance(s, ast.FunctionDef) and s.name == 'formatting']
+    need(len(fm) == 1, 'get_latex: formatting function not found')
+    fb = [s for s in fm[0].body if not tr.ignorable(s)]
+    need(isinstance(fb[0], ast.Assign) and U(fb[0].targets[0]) == 'res', 'get_latex: formatting changed')
+    fv = _single_fv(fb[0].value, 'get_latex formatting')
+    need(U(fv.value) == 'x', 'get_latex: formatting does not format its argument')
+    out.append(f'(* from src/biogeme/results.py:{fm[0].lineno} bioResults.get_latex (formatting handed to pandas to_latex) *)\n'
+               f'Definition latex_value_spec : string := {coq_string(_spec(fv))}.\n')
+    # ------------------------------------------------ get_f12
+    fd = tr.find('bioResults.get_f12')
+    pre = {U(s.targets[0]): U(s.value) for s in fd.body if isinstance(s, ast.Assign) and len(s.targets) == 1}
+    need(pre.get('table') == 'self.get_estimated_parameters(only_robust=False)' and pre.get('coef_names') == 'table.index.to_list()',
+         'get_f12: source of the coefficient names changed')
+    loops = [s for s in fd.body if isinstance(s, ast.For) and U(s.iter) == 'coef_names' and U(s.target) == 'name']
+    need(len(loops) == 1, 'get_f12: coefficient loop changed')
+    lp = loops[0]
+    no_exit(lp, 'get_f12')
+    need(U(lp.body[0]) == 'values = table.loc[name]', 'get_f12: row lookup changed')
+    label = value = None
+    for s in lp.body[1:]:
+        need(isinstance(s, (ast.AugAssign, ast.If)), 'get_f12: unexpected statement in the coefficient loop')
+        if isinstance(s, ast.AugAssign) and isinstance(s.value, ast.JoinedStr):
+            fv = _single_fv(s.value, 'get_f12')
+            if isinstance(fv.value, ast.Subscript) and U(fv.value.value) == 'name':
+                sl = fv.value.slice
+                need(isinstance(sl, ast.Slice) and sl.lower is None and sl.step is None and isinstance(sl.upper, ast.Constant)
+                     and isinstance(sl.upper.value, int) and sl.upper.value >= 0 and label is None, 'get_f12: label slice changed')
+                label = (sl.upper.value, _spec(fv))
+            elif U(fv.value) in ("values['Value']", 'values["Value"]'):
+                need(value is None, 'get_f12: value printed twice')
+                value = _spec(fv)
+    need(label is not None and value is not None, 'get_f12: label or value cell not found')
+    out.append(f'(* from src/biogeme/results.py:{lp.lineno} bioResults.get_f12 (coefficient lines) *)\n'
+               'Definition f12_rows {C} (t : table (list (string * C))) : list (string * string * option (string * C)) :=\n'
+               f'  map (fun name => (str_take {label[0]} name, {coq_string(label[1])},\n'
+               f'                    match table_loc t name with\n'
+               f'                    | Some values => option_map (fun v => ({coq_string(value)}, v)) (series_get values "Value")\n'
+               f'                    | None => None end)) (map fst t).\n')
+    # ------------------------------------------------ __str__
+    fd = tr.find('bioResults.__str__')
+    joins = [s for s in fd.body if isinstance(s, ast.AugAssign) and U(s.target) == 'text'
+             and UN(s.value) == UN(ast.parse("'\\n'.join([f'{b}' for b in self.data.betas])").body[0].value)]
+    need(len(joins) == 1, '__str__: the list of parameters is not printed as one line per Beta')
+    bs = tr.find('Beta.__str__')
+    bb = [s for s in bs.body if not tr.ignorable(s)]
+    need(isinstance(bb[0], ast.Assign) and U(bb[0].targets[0]) == 'text' and isinstance(bb[0].value, ast.JoinedStr)
+         and isinstance(bb[-1], ast.Return) and U(bb[-1].value) == 'text', 'Beta.__str__: shape changed')
+    for s in bb[1:-1]:
+        for x in ast.walk(s):
+            need(not (isinstance(x, ast.Assign) and any(U(t) == 'text' for t in x.targets)), 'Beta.__str__: text reassigned')
+    fvs = [v for v in bb[0].value.values if isinstance(v, ast.FormattedValue)]
+    need(len(fvs) == 2 and U(fvs[0].value) == 'self.name' and U(fvs[1].value) == 'self.value', 'Beta.__str__: name/value not printed first')
+    out.append(f'(* from src/biogeme/results.py:{bs.lineno} Beta.__str__ and :{joins[0].lineno} bioResults.__str__ *)\n'
+               'Definition str_rows {B} (b_name : B -> string) (data_betas : list B) : list (string * string * (string * (field * B))) :=\n'
+               f'  map (fun b => (b_name b, {coq_string(_spec(fvs[0]))}, ({coq_string(_spec(fvs[1]))}, (FValue, b)))) data_betas.\n')
+    return ''.join(out)
+
+
+def gen_reports(ctx):
+    """tie A (specialised extractor): row loops of the report writers"""
+    ctx.gen('Reports', gen_reports_text())
+
+
+class _Attrs(ast.NodeVisitor):
+    """Accesses to attributes of `base` (e.g. self.data / self) in evaluation order."""
+    def __init__(self, base, on_call=None):
+        self.base, self.events, self.on_call = base, [], on_call
+    def visit_Assign(self, n):
+        self.visit(n.value)
+        for t in n.targets: self.visit(t)
+    def visit_AnnAssign(self, n):
+        if n.value is not None: self.visit(n.value)
+        self.visit(n.target)
+    def visit_AugAssign(self, n):
+        self.visit(n.value)
+        if isinstance(n.target, ast.Attribute) and U(n.target.value) == self.base:
+            self.events.append((n.target.attr, 'load'))
+        self.visit(n.target)
+    def visit_Attribute(self, n):
+        if U(n.value) == self.base:
+            self.events.append((n.attr, 'store' if isinstance(n.ctx, (ast.Store, ast.Del)) else 'load'))
+        else:
+            self.generic_visit(n)
+    def visit_Call(self, n):
+        for a in n.args: self.visit(a)
+        for k in n.keywords: self.visit(k.value)
+        self.visit(n.func)
+        if self.on_call: self.on_call(self, n)
+
+def gen_results_text():
+    tr = py2v.load('src/biogeme/results.py')
+    beta_methods = {}
+    for m in ('set_std_err', 'set_robust_std_err', 'set_bootstrap_std_err'):
+        v = _Attrs('self'); v.visit(tr.find('Beta.' + m)); beta_methods[m] = v.events
+    ct = _Attrs('self.data'); ct.visit(tr.find('bioResults._calculate_test'))
+    need(all(k == 'load' for _, k in ct.events), '_calculate_test assigns attributes of the record')
+    def on_call(v, n):
+        f = n.func
+        if isinstance(f, ast.Attribute) and U(f.value).startswith('self.data.betas['):
+            need(f.attr in beta_methods, f'_calculate_stats: unexpected method {f.attr} on a Beta object')
+            for a, k in beta_methods[f.attr]:
+                v.events.append(('betas[].' + a, k))
+        elif U(f) == 'self._calculate_test':
+            v.events += ct.events
+        elif U(f).startswith('self.') and not U(f).startswith('self.data.'):
+            raise Untranslatable(f'_calculate_stats: call to unanalysed method {U(f)}')
+    cs = tr.find('bioResults._calculate_stats')
+    v = _Attrs('self.data', on_call); v.visit(cs)
+    first, stored = {}, []
+    for a, k in v.events:
+        first.setdefault(a, k)
+        if k == 'store' and a not in stored: stored.append(a)
+    ins = [a for a in first if first[a] == 'load']
+    need(ins and stored, '_calculate_stats: no inputs / outputs found')
+    # constructor: both branches store the record in self.data, then _calculate_stats() unconditionally
+    init = tr.find('bioResults.__init__')
+    ib = [s for s in init.body if not tr.ignorable(s)]
+    need(U(ib[-1]) == 'self._calculate_stats()', 'bioResults.__init__: statistics are not recomputed at the end of the constructor')
+    stores = [U(s) for s in ast.walk(init) if isinstance(s, ast.Assign) and U(s.targets[0]) == 'self.data']
+    need(sorted(set(stores)) == sorted({'self.data = the_raw_results', 'self.data = pickle.load(p)', 'self.data = pickle.load(f)', 'self.data = None'}),
+         'bioResults.__init__: unexpected assignment of self.data: ' + repr(stores))
+    wp = tr.find('bioResults.write_pickle')
+    wb = [s for s in wp.body if not tr.ignorable(s)]
+    need(len(wb) == 3 and isinstance(wb[0], ast.Assign) and U(wb[0].targets[0]).startswith('self.data.')
+         and isinstance(wb[0].value, ast.Call) and U(wb[0].value.func) == 'bf.get_new_file_name'
+         and U(wb[0].value.args[0]) == 'self.data.modelName' and isinstance(wb[0].value.args[1], ast.Constant),
+         'write_pickle: naming changed')
+    name_attr = wb[0].targets[0].attr
+    need(isinstance(wb[1], ast.With) and U(wb[1].items[0].context_expr) == f"open(self.data.{name_attr}, 'wb')"
+         and [U(s) for s in wb[1].body] == ['pickle.dump(self.data, f)'] and U(wb[2]) == f'return self.data.{name_attr}',
+         'write_pickle: what is dumped changed')
+    S = lambda l: coq_list([coq_string(a) + '%string' for a in l], ';\n   ')
+    return ('From BV Require Import Model.PyBase.\n'
+            f'(* from src/biogeme/results.py:{cs.lineno} bioResults._calculate_stats (+ Beta.set_*_std_err, _calculate_test):\n'
+            '   attributes of self.data whose first access is a read / attributes that are assigned *)\n'
+            f'Definition stats_inputs : list string :=\n  {S(ins)}.\n'
+            f'Definition stats_outputs : list string :=\n  {S(stored)}.\n'
+            f'(* from src/biogeme/results.py:{wp.lineno} bioResults.write_pickle *)\n'
+            f'Definition pickle_name_attr : string := {coq_string(name_attr)}.\n'
+            f'Definition pickle_ext : string := {coq_string(wb[0].value.args[1].value)}.\n')
+
+
+def gen_results(ctx):
+    """tie A (specialised extractor): attribute sets of _calculate_stats, write_pickle"""
+    ctx.gen('Results', gen_results_text())
+
+
+
+# ---------------------------------------------------------------------------- writer scan
+SCAN_FILES = ['src/biogeme/results.py', 'src/biogeme/biogeme.py', 'src/biogeme/database.py']
+# writers that are deliberately not "result / report / data-dump" writers
+SCAN_EXEMPT = {('src/biogeme/biogeme.py', 'calculate_likelihood_and_derivatives'):
+               'restart file __<model>.iter written to <name>.tmp then os.replace (property C15)'}
+PATH_SINKS = {'to_csv', 'to_pickle', 'to_excel', 'to_json', 'to_html', 'to_latex', 'to_hdf', 'to_parquet',
+              'to_feather', 'to_stata', 'savefig', 'save', 'savetxt', 'savez', 'write_text', 'write_bytes'}
+MOVE_SINKS = {'os.rename', 'os.replace', 'shutil.copy', 'shutil.copyfile', 'shutil.copy2', 'shutil.move'}
+
+
+def scan_writers():
+    """Every call that creates / truncates a file in the scanned modules must receive a name that was
+    assigned, in the same function, from get_new_file_name(...).  Returns the writer table
+    [(file, function, base expression, extension)]; raises Untranslatable otherwise."""
+    table = []
+    for rel in SCAN_FILES:
+        try:
+            tree = ast.parse((REPO / rel).read_text())
+        except Exception as e:  # noqa
+            raise Untranslatable(f'{rel}: cannot parse: {e}')
+        for fn in [n for n in ast.walk(tree) if isinstance(n, ast.FunctionDef)]:
+            fresh = {}   # expression text -> (base, ext) assigned from get_new_file_name
+            for n in ast.walk(fn):
+                if isinstance(n, ast.Assign) and isinstance(n.value, ast.Call) and \
+                        (_dotted(n.value.func) or '').split('.')[-1] == 'get_new_file_name' and len(n.value.args) == 2:
+                    ext = n.value.args[1]
+                    need(isinstance(ext, ast.Constant) and isinstance(ext.value, str), f'{rel}:{n.lineno}: extension is not a literal')
+                    fresh[U(n.targets[0])] = (U(n.value.args[0]), ext.value)
+            for n in ast.walk(fn):
+                if not isinstance(n, ast.Call):
+                    continue
+                d = _dotted(n.func) or ''
+                path = None
+                if d == 'open' and n.args:
+                    mode = n.args[1] if len(n.args) > 1 else next((k.value for k in n.keywords if k.arg == 'mode'), None)
+                    if mode is None:
+                        continue
+                    need(isinstance(mode, ast.Constant), f'{rel}:{n.lineno}: open() with a computed mode')
+                    if not any(c in str(mode.value) for c in 'wax+'):
+                        continue
+                    path = n.args[0]
+                elif isinstance(n.func, ast.Attribute) and n.func.attr in PATH_SINKS:
+                    cands = list(n.args[:1]) + [k.value for k in n.keywords if k.arg in ('path_or_buf', 'path', 'buf', 'fname', 'file')]
+                    if not cands:
+                        continue   # e.g. to_latex() returning a string
+                    path = cands[0]
+                elif d in MOVE_SINKS:
+                    path = n.args[1] if len(n.args) > 1 else None
+                    need(path is not None, f'{rel}:{n.lineno}: {d} without destination')
+                else:
+                    continue
+                if (rel, fn.name) in SCAN_EXEMPT:
+                    continue
+                need(U(path) in fresh,
+                     f'{rel}:{n.lineno} {fn.name}: file written under a name not obtained from get_new_file_name: {U(n)[:90]}')
+                table.append((rel, fn.name, fresh[U(path)][0], fresh[U(path)][1]))
+    need(len(table) >= 6, f'writer scan found only {len(table)} writers')
+    return sorted(set(table))
 
 
 def cand(name, ext, k):
@@ -126,30 +658,605 @@ def stream_names(ctx):
         ctx.stream_broken('names', f'{len(st.disagreements)} disagreements, first: {st.disagreements[0]}')
 
 
-def run(ctx):
-    ctx.assumptions += ASSUME
-    ctx.trusted += ['tie A translator /verif/lib/py2v (fail-closed) for filenames.get_new_file_name; '
-                    'validated on this run by stream names (implementation vs vm_compute of the generated definition)']
-    try:
-        gen_files(ctx)
-    except Untranslatable as e:
-        ctx.tie_broken('py2v:Files', str(e))
-    ctx.build()
-    stream_names(ctx)
 
 
-def replay(ctx, path):
-    import json
-    w = json.load(open(path))
-    wit = w.get('witness')
-    if not wit or 'files' not in wit:
-        print('replay: this file names an obligation/stream; re-run ./check C14')
-        return 2
-    r = ctx.impl('c14_names.py', [wit])[0]
-    bad = (not r['ok']) or r['existed'] or r['name'] in wit['files']
-    print(json.dumps({'witness': wit, 'observed': r, 'still_fails': bad}))
-    return 1 if bad else 0
+# ---------------------------------------------------------------------------- Coq batch helper
+def coq_check_batches(ctx, stream, st, prefix, header, chk_def, items, cases, results, B=200):
+    """items[i]: Gallina term of case i; chk_def defines `chk : <case> -> bool`.  Records a
+    disagreement for every case whose check evaluates to false."""
+    if not items:
+        return
+    files = {}
+    for i in range(0, len(items), B):
+        files[f'{prefix}_{i // B}'] = (header + chk_def + 'Definition cases := ' + coq_list(items[i:i + B], ';\n') +
+                                       '.\nEval vm_compute in (List.map chk cases).\n')
+    outs = ctx.coq_eval_many(files)
+    for k in sorted(files, key=lambda s: int(s.rsplit('_', 1)[1])):
+        ok, out = outs[k]
+        i0 = int(k.rsplit('_', 1)[1]) * B
+        n_here = len(items[i0:i0 + B])
+        if not ok:
+            ctx.stream_broken(stream, 'model evaluation failed: ' + out[-600:])
+            continue
+        bs = parse_bools(out)
+        if len(bs) != n_here:
+            ctx.stream_broken(stream, f'could not parse model output ({len(bs)} results for {n_here} cases)')
+            continue
+        for j, b in enumerate(bs):
+            if not b:
+                st.disagree(cases[i0 + j], 'model (generated from source) differs', results[i0 + j])
+
+
+def finish_stream(ctx, name, st):
+    if st.disagreements:
+        d = st.disagreements[0]
+        ctx.stream_broken(name, f'{len(st.disagreements)} disagreements, first: ' + json.dumps(d, default=str)[:1500])
+
+
+def is_ascii(s):
+    return all(32 <= ord(c) < 127 for c in s)
+
+
+SOB = ('Fixpoint sob (l : list nat) : string := match l with nil => EmptyString | cons n r => '
+       'String (Ascii.ascii_of_nat n) (sob r) end.\n')
+
+
+def cstr(s):
+    """Gallina string for arbitrary text (UTF-8 bytes); needs SOB in the header when not printable ASCII"""
+    if is_ascii(s):
+        return coq_string(s)
+    return '(sob [' + '; '.join(str(b) for b in s.encode('utf-8')) + ']%nat)'
+
+
+# ---------------------------------------------------------------------------- stream backup
+def py_splitext(p):
+    """posixpath.splitext, re-implemented for the case generator only"""
+    sep = p.rfind('/')
+    dot = p.rfind('.')
+    if dot > sep:
+        i = sep + 1
+        while i < dot:
+            if p[i] != '.':
+                return p[:dot], p[dot:]
+            i += 1
+    return p, ''
+
+
+def bcand(target, k):
+    r, e = py_splitext(target)
+    return f'{r}_{k}{e}'
+
+
+BACKUP_TARGETS = ['m.html', 'model.pickle', 'a.tar.gz', 'noext', '.hidden', '..x', 'x.', 'sub.d/file',
+                  'sub.d/f.txt', 'my file.txt', 'a~00.html', 'b_1.txt', '...', 'dir.v2/.rc', 'p.q.r', '_1']
+
+
+def gen_backup_cases(rng, n):
+    cases = []
+    for i in range(n):
+        t = BACKUP_TARGETS[i % len(BACKUP_TARGETS)] if i < 2 * len(BACKUP_TARGETS) else rng.choice(BACKUP_TARGETS)
+        present = rng.random() < 0.85
+        kind = rng.random()
+        k = 0 if kind < 0.2 else rng.randint(1, 6) if kind < 0.85 else rng.choice([9, 10, 11, 12])
+        files, dirs = set(), set()
+        if present:
+            files.add(t)
+        for j in range(1, k + 1):
+            (dirs if rng.random() < 0.1 else files).add(bcand(t, j))
+        for _ in range(rng.randint(0, 3)):
+            files.add(bcand(t, k + 1 + rng.randint(1, 4)))          # beyond a gap
+        for _ in range(rng.randint(0, 3)):
+            files.add(bcand(rng.choice(BACKUP_TARGETS), rng.randint(1, 3)))
+        if rng.random() < 0.3 and k >= 1:
+            r, e = py_splitext(t)
+            files.add(f'{r}_0{k}{e}')                                 # zero padded near-miss
+        if rng.random() < 0.3:
+            r, e = py_splitext(t)
+            files.add(f'{r}~00{e}')
+        if not present:
+            files.discard(t)
+        dirs -= files
+        if '/' in t:
+            dirs.add(t.split('/')[0])
+        cases.append({'files': sorted(files), 'dirs': sorted(dirs), 'target': t, 'rename': rng.random() < 0.5})
+    return cases
+
+
+def stream_backup(ctx, n=None, with_model=True):
+    st = ctx.stream('backup', 'create_backup on directories with 0-12 taken backup names (some taken by directories), gaps, '
+                    'near-misses, targets with no / several / leading dots and sub-directories, absent targets; '
+                    'non-trivial = target present and first backup name taken; distinct by case')
+    cases = gen_backup_cases(ctx.sub_rng('backup'), n or ctx.n(120, 2500))
+    chunks = [cases[i::16] for i in range(16) if cases[i::16]]
+    res_chunks = ctx.impl_parallel('c14_backup.py', chunks)
+    res = [None] * len(cases)
+    for ci, rc in enumerate(res_chunks):
+        for j, r in enumerate(rc):
+            res[ci + 16 * j] = r
+    items, icases, ires = [], [], []
+    for c, r in zip(cases, res):
+        present = c['target'] in c['files']
+        st.record(c, nontrivial=present and bcand(c['target'], 1) in (set(c['files']) | set(c['dirs'])))
+        how = 'create the listed files/directories in an empty directory and call biogeme.tools.files.create_backup(target, rename)'
+        if not r.get('ok'):
+            ctx.violation('C14/backup/exception', 'create_backup raised', c, 'a backup copy', r, how)
+            continue
+        before, after, ret, t = r['before'], r['after'], r['ret'], c['target']
+        if not present:
+            if ret is not None or before != after:
+                ctx.violation('C14/backup/absent-side-effect', 'create_backup on a missing file changed the directory', c, 'nothing', r, how)
+        else:
+            bad = None
+            if ret is None or ret in before:
+                bad = 'backup name is not fresh'
+            elif ret not in after or after[ret][0] != before[t][0]:
+                bad = 'backup does not hold the original content'
+            elif any(p not in after or after[p] != before[p] for p in before if p != t):
+                bad = 'another file changed'
+            elif set(after) - set(before) != {ret}:
+                bad = 'unexpected new files'
+            elif c['rename'] and t in after:
+                bad = 'original still present after rename'
+            elif not c['rename'] and after.get(t) != before[t]:
+                bad = 'original changed by copy'
+            if bad:
+                ctx.violation('C14/backup/' + bad.replace(' ', '-'), 'create_backup: ' + bad, c, 'fresh name holding the original content; nothing else changed', r, how)
+        if with_model and all(is_ascii(p) for p in before) and (ret is None or is_ascii(ret)):
+            fs = coq_list([coq_string(p) for p in sorted(before)])
+            obs = 'None' if ret is None else f'(Some {coq_string(ret)})'
+            items.append(f'({fs}, {coq_string(t)}, {coq_bool(c["rename"])}, {obs}, ({coq_string(r["splitext"][0])}, {coq_string(r["splitext"][1])}))')
+            icases.append(c)
+            ires.append({'ret': ret, 'splitext': r['splitext']})
+    if with_model:
+        chk = ('Definition chk (c : list string * string * bool * option string * (string * string)) : bool :=\n'
+               "  let '(fs, t, rn, obs, sp) := c in\n"
+               '  (let (a, b) := splitext t in String.eqb a (fst sp) && String.eqb b (snd sp)) &&\n'
+               '  match create_backup fs (S (List.length fs)) t rn, obs with\n'
+               '  | Some None, None => true\n'
+               '  | Some (Some (FsRename a b, n)), Some o => rn && String.eqb a t && String.eqb b o && String.eqb n o\n'
+               '  | Some (Some (FsCopy a b, n)), Some o => negb rn && String.eqb a t && String.eqb b o && String.eqb n o\n'
+               '  | _, _ => false end.\n')
+        coq_check_batches(ctx, 'backup', st, 'backup',
+                          'From BV Require Import Model.PyBase Model.FsOps Gen.Backup.\nOpen Scope string_scope.\n',
+                          chk, items, icases, ires)
+    finish_stream(ctx, 'backup', st)
+
+
+# ---------------------------------------------------------------------------- stream boolean
+BOOL_BASE = ['True', 'true', 'Yes', 'yes', 'False', 'false', 'No', 'no', 'TRUE', 'FALSE', 'YES', 'NO', 'tRue', 'y', 'n',
+             'on', 'off', '1', '0', '', ' ', 'True ', ' True', 'Truee', 'Tru', 'Fals', 'None', 'true\t', 'yes.', '"True"',
+             'nO', 'yEs', 'T', 'F', 'TrueFalse', 'no no']
+
+
+def stream_boolean(ctx, with_model=True):
+    st = ctx.stream('boolean', 'parse_boolean on the accepted spellings, case / whitespace / prefix variants and random '
+                    'mutations; every string is a distinct decision (all non-trivial); distinct by string')
+    rng = ctx.sub_rng('boolean')
+    cases = list(BOOL_BASE)
+    for _ in range(ctx.n(60, 600)):
+        s = rng.choice(BOOL_BASE[:8])
+        m = rng.random()
+        if m < 0.3:
+            s = s.swapcase() if rng.random() < 0.5 else s.upper()
+        elif m < 0.6:
+            i = rng.randrange(len(s) + 1)
+            s = s[:i] + rng.choice(' aeTFyn_-') + s[i:]
+        elif m < 0.8 and len(s) > 1:
+            i = rng.randrange(len(s))
+            s = s[:i] + s[i + 1:]
+        cases.append(s)
+    res = ctx.impl('c14_toml.py', {'mode': 'boolean', 'cases': cases})
+    items = []
+    for s, r in zip(cases, res):
+        st.record(s, nontrivial=True)
+        if r[0] == 'e' and r[1] != 'BiogemeError':
+            ctx.violation('C14/boolean/wrong-exception', 'parse_boolean raised something else than BiogemeError on an invalid spelling',
+                          s, 'BiogemeError', r, 'biogeme.parameters.parse_boolean(<witness>)')
+        obs = {'b': lambda: f'(Some {coq_bool(r[1])})', 'e': lambda: 'None'}.get(r[0], lambda: '(Some true)')()
+        if r[0] == '?':
+            st.disagree(s, 'a bool or BiogemeError', r)
+        items.append(f'({cstr(s)}, {obs})')
+    if with_model:
+        chk = ('Definition chk (c : string * option bool) : bool :=\n'
+               '  match parse_boolean (fst c), snd c with Some a, Some b => Bool.eqb a b | None, None => true | _, _ => false end.\n')
+        coq_check_batches(ctx, 'boolean', st, 'boolean',
+                          'From BV Require Import Model.PyBase Model.Params Gen.Params.\nOpen Scope string_scope.\n' + SOB,
+                          chk, items, cases, res, B=400)
+    finish_stream(ctx, 'boolean', st)
+
+
+# ---------------------------------------------------------------------------- stream history
+T0 = 10 ** 18
+HIST_MODELS = ['m', 'model_A', 'my model', 'a~00', 'x.y', 'b-1']
+EXTS = {'write_html': 'html', 'write_latex': 'tex', 'write_f12': 'F12', 'write_pickle': 'pickle'}
+
+
+def load_corpus(kind):
+    out = []
+    d = VERIF / 'corpus' / 'C14'
+    if d.is_dir():
+        for p in sorted(d.glob(kind + '_*.json')):
+            try:
+                out.append(json.loads(p.read_text())['case'])
+            except Exception as e:  # noqa
+                raise RuntimeError(f'unreadable corpus file {p}: {e}')
+    return out
+
+
+def f2h(x):
+    return struct.pack('>d', float(x)).hex()
+
+
+def h2f(h):
+    return struct.unpack('>d', bytes.fromhex(h))[0]
+
+
+def gen_history_case(rng, nops):
+    M = rng.choice(HIST_MODELS)
+    db = rng.choice(['tiny', 'data_1'])
+    decoys = set()
+    for ext in ('html', 'tex', 'F12', 'pickle'):
+        k = rng.choice([0, 0, 1, 2, 3, 5])
+        for j in range(k):
+            decoys.add(cand(M, ext, j))
+        if rng.random() < 0.3:
+            decoys.add(cand(M, ext, k + rng.randint(1, 3)))
+    for base, ext in ((f'{db}_dumped', 'dat'), (f'{db}p_flatten', 'csv'), (f'{M}_validation', 'pickle'),
+                      (f'{M}_val_est_1', 'html'), (f'{M}_val_est_2', 'pickle')):
+        for j in range(rng.choice([0, 0, 1, 2])):
+            decoys.add(cand(base, ext, j))
+    if rng.random() < 0.3:
+        decoys.add('biogeme.toml')
+    decoys |= {'x.txt', 'notes.md'}
+    for t in (f'{M}.html', 'x.txt'):
+        for j in range(1, rng.choice([0, 1, 3]) + 1):
+            decoys.add(bcand(t, j))
+    pool = (['write_html'] * 3 + ['write_latex'] * 2 + ['write_f12'] * 2 + ['write_pickle'] * 3 + ['estimate'] * 3 +
+            ['recycle'] * 2 + ['params_dump'] + ['dump_on_file'] * 2 + ['flat_panel'] * 2 + ['backup'] * 3 + ['validate'])
+    ops, constructed, validated = [], False, False
+    for _ in range(nops):
+        k = rng.choice(pool)
+        if k in ('estimate', 'recycle', 'validate') and not constructed:
+            ops.append({'op': 'construct'})
+            constructed = True
+        if k == 'validate':
+            if validated:
+                continue
+            validated = True
+        op = {'op': k}
+        if k == 'write_html':
+            op['only_robust'] = rng.random() < 0.5
+        if k == 'params_dump':
+            op['file'] = rng.choice(['biogeme.toml', 'custom.toml'])
+            op['draws'] = rng.randint(1, 10 ** 6)
+        if k == 'backup':
+            op['file'] = rng.choice([f'{M}.html', f'{M}.pickle', cand(M, 'html', 1), 'x.txt', 'nope.txt', f'{db}_dumped.dat'])
+            op['rename'] = rng.random() < 0.5
+        ops.append(op)
+    K = rng.randint(1, 4)
+    synth = {'model': M, 'names': [f'b_{i}' for i in range(K)], 'values': [f2h(rng.uniform(-3, 3)) for _ in range(K)],
+             'seed': rng.randint(0, 10 ** 6), 'dbname': db}
+    return {'model': M, 'dbname': db, 'decoys': sorted(decoys), 'synth': synth, 'ops': ops}
+
+
+def is_iter(f):
+    return (f.startswith('__') and f.endswith('.iter')) or f.endswith('.iter.tmp')
+
+
+def model_pickles(M, names):
+    return [f for f in names if f == M + '.pickle' or (f.startswith(M + '~') and f.endswith('.pickle'))]
+
+
+def least_free(names, base, ext):
+    k = 0
+    while cand(base, ext, k) in names:
+        k += 1
+    return cand(base, ext, k)
+
+
+def eval_history(ctx, st, case, r, items, imeta):
+    """property oracle + expectations on one executed history; queues (fs, base, ext, observed) name checks"""
+    how = ('in an empty directory create the decoy files, then run the operations in order '
+           '(./check C14 --replay <this file>)')
+    if r.get('fatal'):
+        ctx.violation('C14/history/fatal', 'the history could not be run', case, 'a completed history', r['fatal'], how)
+        return False
+    prev = r['init']
+    last_est = None
+    taken = False
+    M, db = case['model'], case['dbname']
+    for idx, s in enumerate(r['steps']):
+        op, cur = s['op'], s['snap']
+        k = op['op']
+        files_prev = sorted(f for f in prev if prev[f][3] == 'f')
+        changed = [f for f in prev if f in cur and (cur[f][0] != prev[f][0] or cur[f][1] != T0) and not is_iter(f)]
+        gone = [f for f in prev if f not in cur and not is_iter(f)]
+        new = sorted(f for f in cur if f not in prev and not is_iter(f))
+        wit = {'case': case, 'step': idx, 'op': op}
+        obs = {'changed': changed, 'gone': gone, 'new': new, 'ret': s['ret'], 'exc': s['exc']}
+        allowed_change, allowed_gone = set(), set()
+        if k == 'params_dump':
+            allowed_change = {op['file']}           # configuration file named by the caller
+        if k == 'backup' and op.get('rename', True) and op['file'] in prev:
+            allowed_gone = {op['file']}
+        # ---- the property, directly: nothing that existed is replaced or removed
+        bad = [f for f in changed if f not in allowed_change] + [f for f in gone if f not in allowed_gone]
+        if bad:
+            ctx.violation(f'C14/history/overwrite/{k}', f'{k} replaced or removed existing file(s) {bad}', wit,
+                          'every earlier file keeps its content', obs, how)
+        if s['exc'] is not None:
+            ctx.violation(f'C14/history/exception/{k}', f'{k} raised {s["exc"]["exc"]}', wit, 'the output is written', obs, how)
+            prev = cur
+            continue
+        # ---- expectations (model): which new files, under which names
+        exp = None
+        if k in EXTS:
+            exp = [(M, EXTS[k], s['ret'])]
+        elif k == 'construct':
+            if not set(new) <= {'biogeme.toml'}:
+                st.disagree(wit, 'at most biogeme.toml is created', obs)
+        elif k == 'estimate':
+            exp = [(M, 'html', s['ret']['html']), (M, 'pickle', s['ret']['pickle'])]
+            last_est = (s['ret'], s['ret']['pickle'])
+        elif k == 'recycle':
+            pk = model_pickles(M, files_prev)
+            if pk:
+                if new:
+                    st.disagree(wit, 'recycling writes nothing', obs)
+                if last_est and sorted(pk)[-1] == last_est[1]:
+                    # the file saved by the last estimation is the one that is recycled: same estimates
+                    if s['ret']['betas'] != last_est[0]['betas'] or s['ret']['loglike'] != last_est[0]['loglike']:
+                        ctx.violation('C14/history/recycle-differs', 'estimate(recycle=True) does not return the saved estimates',
+                                      wit, last_est[0], s['ret'], how)
+            else:
+                exp = 'any'
+        elif k == 'validate':
+            exp = []
+            for i in (1, 2):
+                exp += [(f'{M}_val_est_{i}', 'html', None), (f'{M}_val_est_{i}', 'pickle', None)]
+            exp.append((f'{M}_validation', 'pickle', None))
+        elif k == 'params_dump':
+            if not set(new) <= {op['file']}:
+                st.disagree(wit, 'only the named file is created', obs)
+        elif k == 'dump_on_file':
+            exp = [(f'{db}_dumped', 'dat', s['ret'])]
+        elif k == 'flat_panel':
+            exp = [(f'{db}p_flatten', 'csv', None)]
+        elif k == 'backup':
+            t = op['file']
+            if t not in prev:
+                if s['ret'] is not None or new:
+                    st.disagree(wit, 'no backup of a missing file', obs)
+            else:
+                ret = s['ret']
+                if ret is None or ret in prev or new != [ret] or cur[ret][0] != prev[t][0]:
+                    ctx.violation('C14/history/backup', 'create_backup: the backup is not a fresh file holding the original content',
+                                  wit, 'fresh name, same content', obs, how)
+                if not op.get('rename', True) and (t not in cur or cur[t][0] != prev[t][0]):
+                    ctx.violation('C14/history/backup-copy', 'create_backup(rename=False) changed the original', wit, None, obs, how)
+                k2 = 1
+                while bcand(t, k2) in prev:
+                    k2 += 1
+                if ret != bcand(t, k2):
+                    st.disagree(wit, bcand(t, k2), obs, 'backup name')
+        if isinstance(exp, list):
+            pred = []
+            for base, ext, ret in exp:
+                n = least_free(set(files_prev), base, ext)
+                pred.append(n)
+                taken = taken or n != cand(base, ext, 0)
+                observed = ret if ret is not None else (n if n in new else (new[0] if len(new) == 1 else '?'))
+                if is_ascii(observed) and all(is_ascii(f) for f in files_prev):
+                    items.append(coq_case({'files': files_prev, 'name': base, 'ext': ext}, observed))
+                    imeta.append((wit, obs))
+                if ret is not None and ret in prev:
+                    ctx.violation(f'C14/history/not-fresh/{k}', f'{k} wrote under the existing name {ret}', wit, 'a new name', obs, how)
+            if sorted(pred) != new:
+                # each new result / report / dump file must be one of the predicted fresh names
+                if any(f in prev for f in pred) or len(new) != len(pred):
+                    st.disagree(wit, sorted(pred), obs, 'new files')
+                else:
+                    st.disagree(wit, sorted(pred), obs, 'names')
+        prev = cur
+    return taken
+
+
+def stream_history(ctx, n=None, with_model=True):
+    st = ctx.stream('history', 'histories of the real writers (write_html/latex/f12/pickle, BIOGEME(), estimate, estimate(recycle), '
+                    'validate, Parameters.dump_file, dump_on_file, generate_flat_panel_dataframe(save_on_file), create_backup) in '
+                    'directories with decoys; snapshot (sha256, mtime) after every operation; non-trivial = at least one '
+                    'operation found its first candidate name taken; distinct by (decoys, operations)')
+    rng = ctx.sub_rng('history')
+    cases = load_corpus('history')
+    ncorp = len(cases)
+    for _ in range(n or ctx.n(48, 800)):
+        cases.append(gen_history_case(rng, rng.randint(*ctx.n((5, 10), (8, 25)))))
+    chunks = [cases[i::16] for i in range(16) if cases[i::16]]
+    res_chunks = ctx.impl_parallel('c14_history.py', chunks, timeout=1500)
+    res = [None] * len(cases)
+    for ci, rc in enumerate(res_chunks):
+        for j, r in enumerate(rc):
+            res[ci + 16 * j] = r
+    items, imeta = [], []
+    nsteps = 0
+    for c, r in zip(cases, res):
+        taken = eval_history(ctx, st, c, r, items, imeta)
+        nsteps += len(r.get('steps', []))
+        st.record({'decoys': c['decoys'], 'ops': c['ops'], 'model': c['model']}, nontrivial=bool(taken))
+    st.extra['operations'] = nsteps
+    st.extra['name_checks'] = len(items)
+    if with_model:
+        chk = ('Definition chk (c : list string * string * string * string) : bool :=\n'
+               "  let '(fs, name, ext, obs) := c in\n"
+               '  match get_new_file_name fs (S (List.length fs)) name ext with Some n => String.eqb n obs | None => false end.\n')
+        coq_check_batches(ctx, 'history', st, 'history',
+                          'From BV Require Import Model.PyBase Gen.Files.\nOpen Scope string_scope.\n',
+                          chk, items, [m[0] for m in imeta], [m[1] for m in imeta])
+    finish_stream(ctx, 'history', st)
+
+
+# ---------------------------------------------------------------------------- stream toml
+F_EXTREME = [1e-300, 0.1, 1 / 3, 5e-324, 2.2250738585072014e-308, 1.7976931348623157e308, 1e22, 1e16, 123456789.12345679,
+             2.0 ** 53, 1e-5, 0.5, 1.0, 2.5e-8, 6.0221e23]
+I_EXTREME = [1, 2, 7, 100, 99999, 2 ** 31 - 1, 2 ** 31, 2 ** 53 + 1, 2 ** 63 - 1, 2 ** 63, 2 ** 64, 10 ** 30]
+S_ASCII = ['3.2.14', '', 'a"b', "a'b", 'back\\slash', 'hash # x', 'True', 'false', ' lead', 'trail ', '[Section]', 'k = v',
+           '"' * 3, "'" * 3, '{x}', 'a,b;c', '~!@$%^&*()', '0', '1e5', 'x' * 200]
+S_OTHER = ['new\nline', 'tab\there', 'unié中', '\x00', '\x7f', '\r', 'a\x1fb', '\U0001F600', 'carriage\r\nreturn']
+KNOWN_CHECKS = {'is_number', 'zero_one', 'is_positive', 'is_non_negative', 'is_integer', 'check_algo_name', 'is_boolean'}
+S_ALPHABET = 'abcXYZ019 _-.:/#"\'\\=[]'
+
+
+def admissible_value(rng, prm, algos, mode):
+    """a value of the declared type accepted by the parameter's checks"""
+    ty, ch = prm['type'], set(prm['checks'])
+    if ty == 'bool':
+        return ['b', rng.random() < 0.5]
+    if ty == 'str':
+        if 'check_algo_name' in ch:
+            return ['s', rng.choice(algos)]
+        pool = S_ASCII + (S_OTHER if mode != 'ascii' else [])
+        if rng.random() < 0.3:
+            return ['s', ''.join(rng.choice(S_ALPHABET) for _ in range(rng.randint(0, 30)))]
+        return ['s', rng.choice(pool)]
+    lo_open = 'is_positive' in ch
+    lo_closed = 'is_non_negative' in ch or 'zero_one' in ch
+    if ty == 'int' or 'is_integer' in ch:
+        if 'is_integer' not in ch and rng.random() < 0.3:       # e.g. missing_data: any number
+            return ['f', f2h(rng.choice([99999.5, -1e10, 0.25, 1e-300]))]
+        v = rng.choice(I_EXTREME) if rng.random() < 0.6 else rng.randint(0, 10 ** 6)
+        if not (lo_open or lo_closed) and rng.random() < 0.3:
+            v = -v
+        if rng.random() < 0.1:
+            v = 0
+        if v == 0 and lo_open:
+            v = 1
+        return ['i', str(v)]
+    # float
+    if 'zero_one' in ch:
+        v = rng.choice([0.0, 1.0, 1e-300, 0.1, 1 / 3, 0.5, math.nextafter(1.0, 0.0), 5e-324, rng.random()])
+        if lo_open and v == 0.0:
+            v = 1e-300
+        if rng.random() < 0.15:
+            return ['i', str(1 if lo_open else rng.choice([0, 1]))]
+        return ['f', f2h(v)]
+    r = rng.random()
+    if r < 0.55:
+        v = rng.choice(F_EXTREME)
+    elif r < 0.85:
+        v = math.ldexp(rng.random() + 0.5, rng.randint(-60, 60))
+    elif r < 0.93:
+        return ['i', str(rng.choice(I_EXTREME))]
+    else:
+        v = rng.choice([float('inf'), float('nan')]) if not (lo_open or lo_closed) else float('inf')
+    if not (lo_open or lo_closed) and rng.random() < 0.3 and v == v:
+        v = -v if v != 0 else -0.0
+    return ['f', f2h(v)]
+
+
+def coq_pvalue(t):
+    k = t[0]
+    if k == 'b':
+        return f'(PBool {coq_bool(t[1])})'
+    if k == 'i':
+        return f'(PInt ({int(t[1])})%Z)'
+    if k == 'f':
+        return f'(PFloat ({int(t[1], 16)})%Z)'
+    if k == 's':
+        return f'(PStr {cstr(t[1])})'
+    return '(PStr "?unknown")'
+
+
+def stream_toml(ctx, n=None, with_model=True):
+    st = ctx.stream('toml', 'admissible assignments of ALL parameters of default_parameters.py (respecting each check function: '
+                    'booleans, integers in range incl. > 2^64, floats incl. 1e-300, 0.1, 1/3, denormals, max, inf/nan where '
+                    'allowed, every algorithm name, strings with quotes / escapes / unicode) dumped with dump_file and read by a '
+                    'fresh Parameters; every value compared exactly (floats bit-for-bit); non-trivial = differs from the '
+                    'defaults; distinct by assignment')
+    rng = ctx.sub_rng('toml')
+    desc = ctx.impl('c14_toml.py', {'mode': 'describe'})
+    if 'params' not in desc:
+        ctx.stream_broken('toml', 'cannot read the parameter table: ' + json.dumps(desc)[:300])
+        return
+    params, algos = desc['params'], desc['algorithms']
+    unknown = sorted({c for prm in params for c in prm['checks']} - KNOWN_CHECKS)
+    if unknown or any(prm['type'] not in ('bool', 'int', 'float', 'str') for prm in params):
+        ctx.stream_broken('toml', f'parameter table uses checks / types unknown to the generator: {unknown}')
+        return
+    ctx.notes['parameters'] = len(params)
+    cases = load_corpus('toml')
+
+    def assignment(fn):
+        return [{'name': prm['name'], 'section': prm['section'], 'v': fn(prm)} for prm in params]
+
+    cases.append(assignment(lambda prm: prm['default'][:2]))
+    for b in (True, False):
+        cases.append(assignment(lambda prm: ['b', b] if prm['type'] == 'bool' else prm['default'][:2]))
+    for _ in range(n or ctx.n(60, 1200)):
+        mode = 'ascii' if rng.random() < 0.8 else 'any'
+        cases.append(assignment(lambda prm: admissible_value(rng, prm, algos, mode)
+                                if rng.random() < 0.85 else prm['default'][:2]))
+    chunks = [cases[i::16] for i in range(16) if cases[i::16]]
+    res_chunks = ctx.impl_parallel('c14_toml.py', [{'mode': 'roundtrip', 'cases': ch} for ch in chunks])
+    res = [None] * len(cases)
+    for ci, rc in enumerate(res_chunks):
+        for j, r in enumerate(rc):
+            res[ci + 16 * j] = r
+    items, icases, ires = [], [], []
+    how = 'Parameters(); set_value for every entry of the witness; dump_file(f); Parameters().read_file(f); compare get_value'
+    dflt_of = {(prm['name'], prm['section']): prm['default'][:2] for prm in params}
+    for c, r in zip(cases, res):
+        st.record(c, nontrivial=any(a['v'][:2] != dflt_of.get((a['name'], a['section'])) for a in c))
+        if not r.get('ok'):
+            ctx.violation(f'C14/toml/{r.get("stage", "set")}-failed', 'an admissible parameter set could not be written / read back: '
+                          f'{r.get("exc")}: {r.get("msg")}', c, 'the same values', r, how)
+            continue
+        bad = [(a['name'], a['v'][:2], got[:2]) for a, got in zip(c, r['values']) if a['v'][:2] != got[:2]]
+        if bad:
+            ctx.violation('C14/toml/value-changed/' + bad[0][0], f'parameter(s) read back with another value: {bad[:3]}', c,
+                          [a['v'] for a in c], r['values'], how)
+        if with_model and [(a['name'], a['section']) for a in c] == [(prm['name'], prm['section']) for prm in params]:
+            items.append('(' + coq_list([coq_pvalue(a['v']) for a in c]) + ',\n ' + coq_list([coq_pvalue(v) for v in r['values']]) + ')')
+            icases.append(c)
+            ires.append(r['values'])
+    if with_model and items:
+        TY = {'bool': 'TyBool', 'int': 'TyInt', 'float': 'TyFloat', 'str': 'TyStr'}
+        dflt = coq_list([f'mkParam {coq_string(prm["name"])} {coq_string(prm["section"])} {TY[prm["type"]]} '
+                         f'{coq_pvalue(prm["default"])} (fun _ => true)' for prm in params], ';\n  ')
+        header = ('From BV Require Import Model.PyBase Model.Params Gen.Params Proofs.ParamsP.\nOpen Scope string_scope.\n' + SOB +
+                  f'Definition defaults : pdict :=\n  {dflt}.\n'
+                  'Definition with_values (d : pdict) (vs : list pvalue) : pdict :=\n'
+                  '  map (fun pv => mkParam (p_name (fst pv)) (p_section (fst pv)) (p_type (fst pv)) (snd pv) (p_check (fst pv))) (combine d vs).\n'
+                  'Definition pv_eqb (a b : pvalue) : bool := match a, b with\n'
+                  '  | PBool x, PBool y => Bool.eqb x y | PInt x, PInt y => Z.eqb x y | PFloat x, PFloat y => Z.eqb x y\n'
+                  '  | PStr x, PStr y => String.eqb x y | _, _ => false end.\n'
+                  'Fixpoint all2 (l1 l2 : list pvalue) : bool := match l1, l2 with\n'
+                  '  | nil, nil => true | cons a r1, cons b r2 => pv_eqb a b && all2 r1 r2 | _, _ => false end.\n')
+        chk = ('Definition chk (c : list pvalue * list pvalue) : bool :=\n'
+               '  match imp_doc (rev (gen_doc (with_values defaults (fst c)))) defaults with\n'
+               '  | Some d => all2 (map p_value d) (snd c) | None => false end.\n')
+        coq_check_batches(ctx, 'toml', st, 'toml', header, chk, items, icases, ires, B=40)
+    finish_stream(ctx, 'toml', st)
 
 
 def gen_all(ctx):
     gen_files(ctx)
+    gen_backup(ctx)
+    gen_params(ctx)
+    gen_reports(ctx)
+    gen_results(ctx)
+
+
+def run(ctx):
+    ctx.assumptions += ASSUME
+    for name, g in (('Files', gen_files), ('Backup', gen_backup), ('Params', gen_params), ('Reports', gen_reports),
+                    ('Results', gen_results)):
+        try:
+            g(ctx)
+        except Untranslatable as e:
+            ctx.tie_broken('py2v:' + name, str(e))
+    ctx.build()
+    stream_names(ctx)
+    stream_backup(ctx)
+    stream_boolean(ctx)
+    stream_history(ctx)
+    stream_toml(ctx)
